@@ -128,7 +128,7 @@ func (m *monitors) onAPIError(p int, api string, err error) {
 		m.fail("C07", "panic:"+firstLine(cause), fmt.Sprintf("p%d %s panicked: %s", p, api, cause))
 		return
 	}
-	if isValidationErr(err) {
+	if isValidationErr(err) && api == "ReceiveMessage" {
 		return // late-binding validation (wrong base / supplemental data): message dropped, not an internal error
 	}
 	m.fail("C07", "internal-error:"+api, fmt.Sprintf("p%d %s returned %v", p, api, err))
@@ -478,6 +478,8 @@ func (m *monitors) endOfRun(ended string) {
 			switch ended {
 			case "round-bound":
 				m.fail("C06", "not-decided-within-round-bound", fmt.Sprintf("participants %v undecided although an honest participant passed round %d (stabilisation at round %d, byzantine messages: %d)", undecided, s.roundBound(), s.stabRound, s.byzSent))
+			case "stalled":
+				m.fail("C06", "stalled-undecided", fmt.Sprintf("participants %v are undecided and no participant has changed its round or step during the last %d events (timers and deliveries), with no message withheld", undecided, stallEvents))
 			case "quiescent":
 				m.fail("C06", "quiescent-undecided", fmt.Sprintf("no pending event but participants %v are undecided", undecided))
 			}
